@@ -136,7 +136,7 @@ CHECKS: dict[str, tuple[str, str, str, str]] = {
         " wrapping and the LicenseRef section; that the checksum is hashlib.sha1 over every chunk of the file opened"
         " in binary mode and is never disabled by the spdx command; that SPDXID derives from name and checksum; the"
         " LicenseConcluded table (NOASSERTION / NONE / AND of parenthesised expressions, simplified) and the creator"
-        " requirement. SHA-1 values and boolean.py's simplify() are library semantics and not decided. The declared type of --output provides what the body calls on it (click.File lazy=True for every value, `-` included). The covered-file set (ignore-name languages and the is_path_ignored table) is shared with C03. Inherits C02, C03 and C04 (and C05 through C04).",
+        " requirement. SHA-1 values and boolean.py's simplify() are library semantics and not decided. Covered files that could not be examined are reported by spdx, not silently omitted (R9, recorded finding). The declared type of --output provides what the body calls on it (click.File lazy=True for every value, `-` included). The covered-file set (ignore-name languages and the is_path_ignored table) is shared with C03. Inherits C02, C03 and C04 (and C05 through C04).",
         "Trusted: ast, sa/tab.py. The file set is decided by C01/C03.",
         "DESIGN.md §3 C18",
     ),
@@ -170,7 +170,7 @@ CHECKS: dict[str, tuple[str, str, str, str]] = {
         " keyword arguments of template.render ⊆ variables of the default template, with equal tag literals on both"
         " sides; unchanged forwarding of every option along the five-function annotate chain (rename table); the"
         " .license-target and comment-style decision tables; sanity of the folded style tables (29 classes, 261+64"
-        " map entries). That rendering plus commenting round-trips every value is run-time behaviour and not decided. Every jinja2 Environment is constructed without autoescape / finalize / extensions (values are written verbatim). The multi-line writer refuses every text containing the style's terminator (whose table entry carries no blanks) and no style overrides the writer methods or their helper predicates. The header finder's predicate sees one comment at a time, never the ignore markers of the whole file (R10, recorded finding); a header redirected to a new .license sibling hides what the file itself declares (R11, recorded finding, shared with C09). Inherits C02 (tag reading) and C20 (notice building).",
+        " map entries). That rendering plus commenting round-trips every value is run-time behaviour and not decided. Every jinja2 Environment is constructed without autoescape / finalize / extensions (values are written verbatim). The multi-line writer refuses every text containing the style's terminator (whose table entry carries no blanks) and no style overrides the writer methods or their helper predicates. The header finder's predicate sees one comment at a time, never the ignore markers of the whole file (R10, recorded finding); a header redirected to a new .license sibling hides what the file itself declares (R11, recorded finding, shared with C09). Each result of the shared expression parser is None-checked before it is stored or returned (an empty text parses to None; R12, shared with C02 and C04). Inherits C02 (tag reading) and C20 (notice building).",
         "Trusted: ast, sa/tab.py, sa/fold.py, Jinja2's parser (no rendering).",
         "DESIGN.md §3 C07",
     ),
